@@ -121,7 +121,7 @@ func scrtmMain(path string) (bool, uint32, error) {
 	var versionBytes []byte
 	var err error
 	for _, path := range []string{
-		strings.Replace(path, ".fd", "_scrtm_ver.pb", 1),
+		strings.TrimSuffix(path, ".fd") + "_scrtm_ver.pb",
 		path + ".scrtm.pb"} {
 		versionBytes, err = os.ReadFile(path)
 		if err == nil {
